@@ -243,3 +243,7 @@ def join_sep(sep, xs):
 
 def ghost_val(name, _ty, *args):
     raise NotImplementedError("ghost functions have no run-time reading")
+
+
+def same_ref(_x):
+    raise NotImplementedError("same_ref has no run-time reading (object identity across states)")
